@@ -20,6 +20,7 @@ package ctlog
 
 import (
 	"bytes"
+	"context"
 	"crypto/sha256"
 	"crypto/x509"
 	"encoding/json"
@@ -118,6 +119,10 @@ type c09Fault struct {
 	// and then fails or succeeds.
 	Park string `json:"park,omitempty"` // upload | fetch
 	Then string `json:"then,omitempty"` // fail | succeed
+	// disconnect variant of the concurrent one: the FIRST client disconnects (its
+	// request context is cancelled) while its issuer I/O is held; the sibling
+	// submission B is posted before or after that moment.
+	B string `json:"b,omitempty"` // before-cancel | after-cancel
 }
 
 func (it c09Item) Label() string {
@@ -128,6 +133,8 @@ func (it c09Item) Label() string {
 		return fmt.Sprintf("root-reload/%s/%s", it.Reload.Name, strings.Join(it.Reload.Steps, ">"))
 	case it.Cross != nil:
 		return fmt.Sprintf("cross-chain/type=%s/mode=%s/order=%s", it.Cross.Type, it.Cross.Mode, it.Cross.Order)
+	case it.Fault != nil && it.Fault.B != "":
+		return fmt.Sprintf("issuer-fault/disconnect/shape=%s/issuer=%d/park=%s/then=%s/b=%s", it.Fault.Shape, it.Fault.Issuer, it.Fault.Park, it.Fault.Then, it.Fault.B)
 	case it.Fault != nil && it.Fault.Park != "":
 		return fmt.Sprintf("issuer-fault/concurrent/shape=%s/issuer=%d/park=%s/then=%s", it.Fault.Shape, it.Fault.Issuer, it.Fault.Park, it.Fault.Then)
 	case it.Fault != nil:
@@ -174,6 +181,20 @@ func c09EnumerateFaults() []c09Item {
 			}
 		}
 	}
+	for _, sh := range c09FaultShapes {
+		if sh.name == "leaf_i2" {
+			continue // certificate and precertificate: leaf_i1 and precert_presign
+		}
+		for _, i := range []int{1, sh.issuers} { // first issuer object and the (omitted) root
+			for _, park := range []string{"upload", "fetch"} {
+				for _, then := range []string{"fail", "succeed"} {
+					for _, b := range []string{"before-cancel", "after-cancel"} {
+						out = append(out, c09Item{Fault: &c09Fault{Shape: sh.name, Issuer: i, Park: park, Then: then, B: b}})
+					}
+				}
+			}
+		}
+	}
 	return out
 }
 
@@ -192,6 +213,101 @@ func c09FaultTuple(it c09Item) *c09Tuple {
 	}
 	c09Fail("unknown fault shape %q", it.Fault.Shape)
 	return nil
+}
+
+// c09RunFaultDisconnect: submission A is held inside the backend I/O of a new
+// issuer object; its client disconnects (request context cancelled) while the
+// I/O is in flight; sibling submission B (different leaf, same issuers, own
+// live context) is posted before or after that moment; the held I/O is then
+// released (aborted by the dead context, or failing/succeeding). B's chain is
+// valid, its client is connected and the backend is healthy for B's own I/O:
+// B must be accepted, with the full leaf/SCT/issuer checks. A may get any
+// answer; accepted => checked as usual, otherwise it must leave no leaf.
+func c09RunFaultDisconnect(rp *verifmc.Report, it c09Item) {
+	c09InitPKI()
+	c09InstallClock()
+	r := &c09Runner{rp: rp, items: []c09Item{it}, env: c09NewEnv(), codes: map[string][2]int{}}
+	defer r.env.close()
+	env := r.env
+	tu := c09FaultTuple(it)
+	if _, err := env.setRoots(c09PKIs["accepted"].root, c09PKIs["removed"].root); err != nil {
+		c09Fail("SetRootsFromPEM: %v", err)
+	}
+	chains := [][][]byte{c09BuildChain(*tu, 0), c09BuildChain(*tu, 1)}
+	ok, effective, why := c09Predicate(chains[0], env.roots, tu.Endpoint)
+	if !ok || it.Fault.Issuer < 1 || it.Fault.Issuer >= len(effective) {
+		c09Fail("%s: base chain not acceptable or issuer index out of range: %s", it.Label(), why)
+	}
+	key := fmt.Sprintf("issuer/%x", sha256.Sum256(effective[it.Fault.Issuer].Raw))
+	park := c09NewPark(key, it.Fault.Park)
+	env.be.park = park
+	defer park.releaseWith(false)
+
+	subs := make([]*c09Sub, 2)
+	for i, c := range chains {
+		subs[i] = &c09Sub{Endpoint: tu.Endpoint, Chain: c, LeafDER: c[0], Body: c09Body(c)}
+	}
+	ctxA, disconnectA := context.WithCancel(context.Background())
+	defer disconnectA()
+	subs[0].ctx = ctxA
+	oldN := env.treeSize()
+	fl := &c09Flight{env: env}
+	fl.launch(subs[0])
+	fl.settle(0) // A is now held inside the hook (or answered / in the pool)
+	held := park.active.Load()
+	if it.Fault.B == "after-cancel" {
+		disconnectA()
+	}
+	fl.launch(subs[1])
+	fl.settle(c09BlockedWait) // B is answered, in the pool, or waiting behind A's issuer I/O
+	if it.Fault.B == "before-cancel" {
+		disconnectA()
+	}
+	park.releaseWith(it.Fault.Then == "fail")
+	fl.drain()
+	newN := env.treeSize()
+	rp.Add("submissions", 2)
+
+	leaves, err := env.readLeaves(0, newN)
+	if err != nil {
+		r.viol(it, "reading the sequenced leaves back: %v", err)
+		return
+	}
+	claimed := map[int64]bool{}
+	accepted := int64(0)
+	for i, s := range subs {
+		where := []string{"submission A (client disconnected)", "submission B (client connected)"}[i]
+		if s.code != 200 {
+			if i == 1 {
+				r.viol(it, "%s: valid chain, live request context and a healthy backend, but answered %d: %s", where, s.code, c09Clip(s.resp))
+			}
+			for idx, le := range leaves {
+				if bytes.Equal(le.Cert, s.LeafDER) || bytes.Equal(le.PreCert, s.LeafDER) {
+					r.viol(it, "%s: answered %d but leaf %d carries its certificate", where, s.code, idx)
+				}
+			}
+			continue
+		}
+		accepted++
+		rp.Add("accepted", 1)
+		_, eff, _ := c09Predicate(s.Chain, env.roots, tu.Endpoint)
+		sct, err := c09ParseSCT(s.resp)
+		if err != nil {
+			r.viol(it, "%s: unparsable add-chain response %s: %v", where, c09Clip(s.resp), err)
+			continue
+		}
+		if sct.index < oldN || sct.index >= newN || claimed[sct.index] {
+			r.viol(it, "%s: SCT leaf_index %d is not a distinct new leaf of [%d,%d)", where, sct.index, oldN, newN)
+			continue
+		}
+		claimed[sct.index] = true
+		r.checkAccepted(it, where+" (judged after all storage I/O finished)", sct, leaves[sct.index], eff)
+	}
+	if newN-oldN != accepted {
+		r.viol(it, "tree grew by %d leaves for %d accepted submissions", newN-oldN, accepted)
+	}
+	rp.Eval(it.Label())
+	rp.Sample(map[string]any{"case": it.Label(), "status_A_B": []int{subs[0].code, subs[1].code}, "A_held_in_backend": held})
 }
 
 // c09RunFaultConcurrent: submission 1 is held inside the backend I/O of a new
@@ -290,6 +406,10 @@ func c09RunFaultConcurrent(rp *verifmc.Report, it c09Item) {
 // issuers. Every step is held to: rejected with 5xx and no leaf, or accepted
 // with the leaf correct and every certificate of the verified chain retrievable.
 func c09RunFault(rp *verifmc.Report, it c09Item) {
+	if it.Fault.B != "" {
+		c09RunFaultDisconnect(rp, it)
+		return
+	}
 	if it.Fault.Park != "" {
 		c09RunFaultConcurrent(rp, it)
 		return
@@ -968,7 +1088,7 @@ func TestVerifC09(t *testing.T) {
 	// Issuer-storage fault sub-enumeration (bounded-exhaustive): accepted shape x
 	// issuer object of the verified chain x {first Upload fails, first Fetch fails, both}.
 	faults := c09EnumerateFaults()
-	rp.Note("issuer_fault_enumeration", fmt.Sprintf("%d scenarios over shapes {leaf+intermediate, leaf+2 intermediates, precertificate with signing certificate} x every issuer object of the verified chain (incl. the omitted root): sequential x {first Upload fails once, first Fetch fails once with a transient error, both} as submit / resubmit identical chain / submit sibling leaf; concurrent x {first Upload held, first Fetch held} x {then fails, then succeeds} as submission 1 held inside the backend, submission 2 (sibling leaf, same issuers) posted, sequence, release, sequence until answered; each on one fresh log, judged after all storage I/O finished", len(faults)))
+	rp.Note("issuer_fault_enumeration", fmt.Sprintf("%d scenarios over shapes {leaf+intermediate, leaf+2 intermediates, precertificate with signing certificate} x every issuer object of the verified chain (incl. the omitted root): sequential x {first Upload fails once, first Fetch fails once with a transient error, both} as submit / resubmit identical chain / submit sibling leaf; concurrent x {first Upload held, first Fetch held} x {then fails, then succeeds} as submission 1 held inside the backend, submission 2 (sibling leaf, same issuers) posted, sequence, release, sequence until answered; disconnect (2 shapes: certificate, precertificate with signing certificate) x {first issuer object, omitted root} x {Upload held, Fetch held} x {then fails, then succeeds} x {sibling B posted before, after the cancellation}: client A disconnects (request context cancelled) while its issuer I/O is held; B must be accepted; each on one fresh log, judged after all storage I/O finished", len(faults)))
 	for _, it := range faults {
 		batch++
 		if !rp.Mine(batch) {
